@@ -1,3 +1,5 @@
+pub mod attest;
+pub mod edit;
 pub mod json;
 pub mod keys;
 pub mod meta;
